@@ -130,7 +130,9 @@ def run_kani(crate, harnesses, tag, jobs=8, harness_timeout=600, overall_timeout
                     failed.append(item)
             elif s in ('Undetermined', 'Unknown', 'Error'):
                 undetermined.append(ch['description'])
-        res = {'failed': failed, 'cover': covers, 'time_s': r['duration_ms'] / 1000.0,
+        fns = sorted({ch['function'] for ch in r['checks']
+                      if ch.get('location', {}).get('file', '').startswith(('teos', 'watchtower', '/repo'))})
+        res = {'failed': failed, 'cover': covers, 'time_s': r['duration_ms'] / 1000.0, 'functions': fns[:80],
                'solver_s': float(st.get('runtime_decision_procedure_s') or 0.0) + float(st.get('runtime_symex_s') or 0.0),
                'sat_s': float(st.get('runtime_solver_s') or 0.0),
                'checks': len(r['checks']), 'vccs': st.get('vccs_generated'),
